@@ -2,8 +2,11 @@ package main
 
 import (
 	"fmt"
+	"go/token"
 	"sort"
 	"strings"
+
+	"golang.org/x/tools/go/ssa"
 )
 
 // C03/R3 primitive-type transfer.
@@ -456,4 +459,115 @@ func c03LivenessClass(p *Prog) *RuleResult {
 	r.StaleCheck(c03LiveOnly)
 	r.Floor(1)
 	return r
+}
+
+// C03/R6 merged function symbols are marked mutable.
+//
+// Calls of a function that is known to be empty are deleted and calls of a known identity
+// function are unwrapped (IsEmptyFunction / IsIdentityFunction), unless the symbol carries
+// CouldPotentiallyBeMutated. Besides assignment expressions there is one more way to give a
+// function symbol another value: hoisting merges a nested `var f`, a `for (var f of …)` or a
+// sloppy-mode block-level `function f` into an existing function symbol of the same name
+// (hoistSymbols links the merged symbol to it). Rule: in hoistSymbols no path leads from a point
+// where the existing symbol is known to be a function (true edge of Kind.IsFunction()) to the
+// store that links another symbol to it without passing a store that ors CouldPotentiallyBeMutated
+// into a symbol's Flags.
+func c03MergedFunctionSymbols(p *Prog) *RuleResult {
+	r := NewRule("C03/R6 merged-function-mutable", "when hoisting merges a variable into an existing function symbol, that symbol is marked CouldPotentiallyBeMutated before the link is made (so 'known empty/identity function' call rewrites do not fire for it)")
+	fn := p.FindFunc("js_parser.(*parser).hoistSymbols")
+	ap := p.ByPath[modPath+"/internal/ast"]
+	if !r.Anchor("js_parser.(*parser).hoistSymbols", fn != nil) || !r.Anchor("package ast", ap != nil) {
+		return r
+	}
+	mut, ok := constsOfType(ap.Types, "SymbolFlags")["CouldPotentiallyBeMutated"]
+	if !r.Anchor("ast.CouldPotentiallyBeMutated", ok) {
+		return r
+	}
+	flagBlocks := map[*ssa.BasicBlock]bool{}
+	var linkStores []*ssa.Store
+	testedSymbols := map[ssa.Value]bool{} // the symbols whose Kind is tested with IsFunction()
+	isFnEdgesTrue := [][2]int{}
+	isFnFalse := map[[2]int]bool{}
+	eachInstr(fn, func(b *ssa.BasicBlock, in ssa.Instruction) {
+		switch x := in.(type) {
+		case *ssa.Store:
+			fa, ok := x.Addr.(*ssa.FieldAddr)
+			if !ok || namedTypeName(fa.X.Type()) != "ast.Symbol" {
+				return
+			}
+			switch fieldAddrName(fa) {
+			case "Link":
+				linkStores = append(linkStores, x)
+			case "Flags":
+				if bo, ok := x.Val.(*ssa.BinOp); ok && bo.Op == token.OR {
+					if cv, ok := constInt(bo.Y); ok && cv&mut != 0 {
+						flagBlocks[b] = true
+					}
+				}
+			}
+		case *ssa.If:
+			if c, ok := x.Cond.(*ssa.Call); ok && FuncNameOf(c) == "ast.(SymbolKind).IsFunction" {
+				isFnEdgesTrue = append(isFnEdgesTrue, [2]int{b.Index, 0})
+				isFnFalse[[2]int{b.Index, 1}] = true
+				if root, path := purePath(c.Call.Args[0]); len(path) == 1 && path[0] == "Kind" {
+					testedSymbols[root] = true
+				}
+			}
+		}
+	})
+	if !r.Anchor("a Kind.IsFunction() test and a store to Symbol.Link in hoistSymbols", len(isFnEdgesTrue) > 0 && len(linkStores) > 0) {
+		return r
+	}
+	loops := naturalLoops(fn)
+	for i, ls := range linkStores {
+		r.Instances++
+		key := fmt.Sprintf("hoistSymbols link store #%d", i+1)
+		lb := ls.Block()
+		bad := ""
+		// a store that links the tested symbol itself away (it is being replaced, nothing is merged into it)
+		if testedSymbols[ls.Addr.(*ssa.FieldAddr).X] {
+			r.OK(key, false, "links the existing symbol to the new one, not the other way round")
+			continue
+		}
+		for _, e := range isFnEdgesTrue {
+			start := fn.Blocks[e[0]].Succs[e[1]]
+			if flagBlocks[start] {
+				continue
+			}
+			// a new iteration of the scope walk looks at a different existing symbol
+			headers := map[*ssa.BasicBlock]bool{}
+			for h, body := range loops {
+				if body[start] {
+					headers[h] = true
+				}
+			}
+			path, escapes := reachesExitAvoidingEdges(start, func(b *ssa.BasicBlock) bool { return b == lb }, func(b *ssa.BasicBlock) bool { return (flagBlocks[b] && b != lb) || headers[b] }, func(b *ssa.BasicBlock, si int) bool { return isFnFalse[[2]int{b.Index, si}] })
+			if escapes && !(flagBlocks[lb] && storeBefore(lb, ls, mut)) {
+				bad = fmt.Sprintf("blocks %v", blockIdx(path))
+			}
+		}
+		if bad != "" {
+			r.Fail(key, p.Pos(ls.Pos()), "a symbol is linked (merged) into an existing symbol that is known to be a function without that function symbol being marked CouldPotentiallyBeMutated ("+bad+"): `function f(){} { var f = g } f()` then loses the call because f still counts as a known empty function")
+		} else {
+			r.OK(key, true, "every path from 'the existing symbol is a function' to the link passes the mutation mark (or cannot reach it)")
+		}
+	}
+	return r
+}
+
+// storeBefore: does block b store the mutation flag before instruction at?
+func storeBefore(b *ssa.BasicBlock, at ssa.Instruction, mut int64) bool {
+	for _, in := range b.Instrs {
+		if in == at {
+			return false
+		}
+		if st, ok := in.(*ssa.Store); ok {
+			if bo, ok := st.Val.(*ssa.BinOp); ok && bo.Op == token.OR {
+				if cv, ok := constInt(bo.Y); ok && cv&mut != 0 {
+					return true
+				}
+			}
+		}
+	}
+	return false
 }
